@@ -219,15 +219,19 @@ const iupacLower = "acgturykmswbdhvn"
 func c18Gen(t *rapid.T) c18Case {
 	mode := rapid.SampledFrom([]string{"search", "match", "match"}).Draw(t, "mode")
 	var seqAlpha, qAlpha string
-	switch rapid.IntRange(0, 3).Draw(t, "alpha") {
+	switch rapid.IntRange(0, 4).Draw(t, "alpha") {
 	case 0:
 		seqAlpha, qAlpha = "acgt", "acgt"
 	case 1:
 		seqAlpha, qAlpha = "acgtACGT", "acgtACGT"
 	case 2:
 		seqAlpha, qAlpha = iupacLower+"ACGTURYKMSWBDHVN", iupacLower[:15]+"ACGTURYKMSWBDHV" // no 'n' in queries (see DESIGN)
-	default:
+	case 3:
 		seqAlpha, qAlpha = "acgt.*+-(x1 ", "acgt.*+()[]|?\\^$-{}x1 " // non-alphabet and regexp-syntax bytes
+	default:
+		// bytes that differ only in bit 0x20 without being letters, next to letters in both cases
+		seqAlpha = "@`[{\\|]}^~_\x7faAtT"
+		qAlpha = seqAlpha
 	}
 	gen := func(alpha string, lo, hi int, name string) string {
 		n := rapid.IntRange(lo, hi).Draw(t, name+"len")
@@ -296,6 +300,24 @@ func TestC18(t *testing.T) {
 		}
 	}
 	e2.done(true)
+	// every pair of printable bytes (0x20..0x7f): a one-byte query against a two-byte sequence, search and match
+	e2b := enumPart(t, c18Prop, st, "all-printable-pairs")
+	inAlphabet := func(b byte) bool { return bytes.IndexByte([]byte(iupacLower+"ACGTURYKMSWBDHVN"), b) >= 0 }
+	for q := byte(0x20); q <= 0x7f; q++ {
+		for s := byte(0x20); s <= 0x7f; s++ {
+			seq := string([]byte{s, 'c', s})
+			if !e2b.try(c18Case{Mode: "search", Seq: seq, Query: string([]byte{q})}) {
+				return
+			}
+			if (q == 'n' || q == 'N') && !inAlphabet(s) {
+				continue // query N against a byte outside the alphabet is left open by the statement
+			}
+			if !e2b.try(c18Case{Mode: "match", Seq: seq, Query: string([]byte{q})}) {
+				return
+			}
+		}
+	}
+	e2b.done(true)
 	// exhaustive small strings: sequences of length <=5 and queries of length <=3 over {a,c,G}
 	e3 := enumPart(t, c18Prop, st, "exhaustive-small-strings")
 	var all func(alpha string, n int) []string
